@@ -135,6 +135,37 @@ func checkSequence(f *failer, r *vh.Run, rng *rand.Rand) (shape string) {
 	for i := 0; i < n; i++ {
 		rec.Headers = append(rec.Headers, kgo.RecordHeader{Key: genKey(rng, pool), Value: genVal(rng)})
 	}
+	// Half of the records are laid out the way a fetched record is: key, value
+	// and every header value are consecutive sub-slices of ONE buffer (the
+	// decoded batch), so each slice's capacity runs on into its neighbours.
+	// Writing through an old header value's backing array then shows up as a
+	// changed neighbour.
+	if arena := rng.IntN(2) == 0; arena {
+		var buf []byte
+		type span struct{ lo, hi int }
+		add := func(b []byte) span {
+			lo := len(buf)
+			buf = append(buf, b...)
+			return span{lo, len(buf)}
+		}
+		ks := add(rec.Key)
+		hs := make([]span, len(rec.Headers))
+		nilv := make([]bool, len(rec.Headers))
+		for i, h := range rec.Headers {
+			nilv[i] = h.Value == nil
+			hs[i] = add(h.Value)
+		}
+		vs := add(rec.Value)
+		buf = append(buf, "tail-of-the-batch-buffer"...)
+		rec.Key = buf[ks.lo:ks.hi]
+		rec.Value = buf[vs.lo:vs.hi]
+		for i := range rec.Headers {
+			if !nilv[i] {
+				rec.Headers[i].Value = buf[hs[i].lo:hs[i].hi]
+			}
+		}
+		r.Count("records_with_shared_backing_buffer", 1)
+	}
 	c := kotel.NewRecordCarrier(rec)
 	var log []string
 	dups, sets, newKeys := false, 0, 0
